@@ -274,6 +274,12 @@ def texture(name, n):
     if name == "aligned":
         ms = list(CUBE.values())
         return np.array([ms[i % 24] for i in range(n)])
+    if name == "random_fortran":
+        # the "random" texture in Fortran memory order (as read from MATLAB / Fortran output)
+        return np.asfortranarray(texture("random", n))
+    if name == "random_tview":
+        # the "random" texture handed over as a transposed VIEW of the stack of its transposes
+        return np.ascontiguousarray(texture("random", n).transpose(0, 2, 1)).transpose(0, 2, 1)
     if name == "aligned_i64":
         # the same axis-aligned texture typed with integer literals (an int64 ndarray)
         return np.rint(texture("aligned", n)).astype(np.int64)
